@@ -259,7 +259,28 @@ def run_extraction(ex: Extraction, report):
         fs = _line_start(src, o + mb.start())
         me = None
         seg = src[o:c]
-        for m in re.finditer(ex.args["end"], seg):
+        if ex.args.get("to_block_end"):
+            # from the begin match to the end of the block that encloses it (e.g. "the rest of the loop body"), whatever the order of the
+            # statements in between
+            depth, k = 0, o + mb.start()
+            while k > o:
+                k -= 1
+                if msk[k] == "}":
+                    depth += 1
+                elif msk[k] == "{":
+                    if depth == 0:
+                        break
+                    depth -= 1
+            fe = match_delim(msk, k)
+            t = SrcText.from_file_slice(src, fs, fe)
+            rec["item"] = "fragment of fn %s" % ex.args.get("fn")
+            rec["lines"] = [src.count("\n", 0, fs) + 1, src.count("\n", 0, fe) + 1]
+            rec["fn"] = ex.args.get("fn")
+            rec["impl"] = ex.args.get("impl")
+            rec["nth"] = int(ex.args.get("nth", 1))
+            rec["span"] = [fs, fe]
+            seg = None
+        for m in (re.finditer(ex.args["end"], seg) if seg is not None else ()):
             a0 = m.start()
             if a0 < mb.start():
                 continue
@@ -267,10 +288,15 @@ def run_extraction(ex: Extraction, report):
                 continue  # inside comment/string
             me = m
             break
-        if not me:
+        if seg is None:
+            pass
+        elif not me:
             raise LostAnchor("fragment end /%s/ not found in fn %s" % (ex.args["end"], ex.args.get("fn")))
-        fe = o + me.end()
-        if ex.args.get("end_block"):
+        else:
+          fe = o + me.end()
+        if seg is None:
+            pass
+        elif ex.args.get("end_block"):
             # the block opened by the last `{` inside the end match (else: the first `{` after it)
             ms, me_ = o + me.start(), o + me.end()
             k = msk.rfind("{", ms, me_)
@@ -285,7 +311,8 @@ def run_extraction(ex: Extraction, report):
                 fe = fe - 1
         elif ex.args.get("end_stmt"):
             fe = _stmt_end(msk, o + me.start())
-        t = SrcText.from_file_slice(src, fs, fe)
+        if seg is not None:
+            t = SrcText.from_file_slice(src, fs, fe)
         rec["item"] = "fragment of fn %s" % ex.args.get("fn")
         rec["lines"] = [src.count("\n", 0, fs) + 1, src.count("\n", 0, fe) + 1]
         rec["fn"] = ex.args.get("fn")
